@@ -196,6 +196,15 @@ def make_image(c):
                     fill_value=c['fill'], **kw)
 
 
+class CallerArraysModified(Exception):
+    """model(x, y) changed the coordinate arrays handed to it."""
+
+
+def snapshot(a):
+    a = np.asarray(a)
+    return (a.dtype.str, a.shape, a.tobytes())
+
+
 def eval_model(m, flux, x_0, y_0, pts, shape2d=False):
     m.flux = float(flux)
     m.x_0 = float(x_0)
@@ -203,13 +212,20 @@ def eval_model(m, flux, x_0, y_0, pts, shape2d=False):
     x = np.array([float(p[0]) for p in pts])
     y = np.array([float(p[1]) for p in pts])
     if shape2d and len(pts) % 2 == 0 and len(pts) >= 2:
-        out = m(x.reshape(2, -1), y.reshape(2, -1)).ravel()
-    else:
-        out = m(x, y)
-    out = np.asarray(out, float)
+        x, y = x.reshape(2, -1), y.reshape(2, -1)
+    before = (snapshot(x), snapshot(y))
+    out = np.asarray(m(x, y), float)
+    if (snapshot(x), snapshot(y)) != before:
+        raise CallerArraysModified('model(x, y) modified the float64 coordinate arrays passed by the caller')
     if out.shape != x.shape:
-        raise ValueError(f'model output has shape {out.shape} for {x.shape[0]} input points')
-    return out
+        raise ValueError(f'model output has shape {out.shape} for input of shape {x.shape}')
+    return out.ravel()
+
+
+def exc_sig(cls, e):
+    if isinstance(e, CallerArraysModified):
+        return f'{cls}:caller-arrays-modified'
+    return f'{cls}:exception:{type(e).__name__}'
 
 
 def bbox_of(m):
@@ -764,6 +780,134 @@ def real_checks(c, support_cb=None):
 
 
 # --------------------------------------------------------------------------
+# histories that REUSE the caller's coordinate arrays (plain Python, real models)
+# --------------------------------------------------------------------------
+COORD_KINDS = ['f64', 'f64', 'f64_2d_C', 'f64_2d_F', 'f64_view', 'f64_rev', 'f32', 'int', 'list', 'scalar']
+TARGETS = ['self', 'self', 'copy', 'deepcopy', 'become_copy', 'become_deepcopy']
+
+
+def make_coords(kind, xs, ys):
+    """The caller's coordinate containers in one representation, plus every array whose bytes must
+    not change (the containers themselves and the buffers they are views of)."""
+    xs, ys = [float(v) for v in xs], [float(v) for v in ys]
+    if kind in ('f64_2d_C', 'f64_2d_F') and len(xs) % 2:
+        xs, ys = xs[:-1], ys[:-1]
+    if kind == 'f64':
+        x, y = np.array(xs), np.array(ys)
+        guards = [x, y]
+    elif kind == 'f64_2d_C':
+        x, y = np.array(xs).reshape(2, -1), np.array(ys).reshape(2, -1)
+        guards = [x, y]
+    elif kind == 'f64_2d_F':
+        x, y = np.asfortranarray(np.array(xs).reshape(2, -1)), np.asfortranarray(np.array(ys).reshape(2, -1))
+        guards = [x, y]
+    elif kind == 'f64_view':
+        bx, by = np.full(2 * len(xs), 777.0), np.full(2 * len(ys), -777.0)
+        bx[::2], by[1::2] = xs, ys
+        x, y = bx[::2], by[1::2]
+        guards = [bx, by]
+    elif kind == 'f64_rev':
+        bx, by = np.array(xs[::-1]), np.array(ys[::-1])
+        x, y = bx[::-1], by[::-1]
+        guards = [bx, by]
+    elif kind == 'f32':
+        x, y = np.array(xs, np.float32), np.array(ys, np.float32)
+        guards = [x, y]
+    elif kind == 'int':
+        x, y = np.array(np.round(xs), np.int64), np.array(np.round(ys), np.int64)
+        guards = [x, y]
+    elif kind == 'list':
+        x, y = list(xs), list(ys)
+        guards = [x, y]
+    else:   # scalar
+        x, y = xs[0], ys[0]
+        guards = [x, y]
+    return x, y, guards
+
+
+def build_model(md):
+    if md['kind'] == 'image':
+        return make_image(undescribe_image(md))
+    if md['kind'] == 'grid':
+        return make_grid(undescribe_grid(md))
+    from photutils import psf
+    return getattr(psf, md['name'])(**md['params'])
+
+
+def set_params(m, op):
+    m.flux = float(F(op['flux']))
+    m.x_0 = float(F(op['x_0']))
+    m.y_0 = float(F(op['y_0']))
+
+
+def run_reuse(spec):
+    """One model, ONE set of coordinate arrays used for every evaluation of a history over the model,
+    its copy() and deepcopy().  Returns a list of (signature suffix, message)."""
+    xs, ys = [F(v) for v in spec['xs']], [F(v) for v in spec['ys']]
+    x, y, guards = make_coords(spec['coord'], xs, ys)
+    before = [snapshot(g) for g in guards]
+    m = build_model(spec['model'])
+    fails = []
+    with np.errstate(all='ignore'):
+        for n, op in enumerate(spec['ops']):
+            t = op['target']
+            if t == 'become_copy':
+                m = m.copy()
+            elif t == 'become_deepcopy':
+                m = m.deepcopy()
+            tgt = m.copy() if t == 'copy' else (m.deepcopy() if t == 'deepcopy' else m)
+            set_params(tgt, op)
+            try:
+                out = np.asarray(tgt(x, y), float)
+            except Exception as e:      # noqa
+                fails.append((f'exception:{type(e).__name__}', f'evaluation {n} ({t}) raised: {e!s:.200}'))
+                break
+            if [snapshot(g) for g in guards] != before:
+                fails.append(('caller-arrays-modified',
+                              f'evaluation {n} ({t}) modified the caller\'s {spec["coord"]} coordinate arrays'))
+                break
+            fresh = build_model(spec['model'])
+            set_params(fresh, op)
+            fx, fy, _ = make_coords(spec['coord'], xs, ys)
+            want = np.asarray(fresh(fx, fy), float)
+            if out.shape != want.shape or not np.array_equal(out, want, equal_nan=True):
+                fails.append(('history', f'evaluation {n} ({t}) with the same coordinate arrays differs from a fresh '
+                                         f'model on fresh copies of the coordinates'))
+                break
+    return fails
+
+
+def gen_reuse_case(rng, which):
+    if which == 'image':
+        c = gen_image_case(rng)
+        md, cls = describe_image(c), 'ImagePSF'
+        pts, base = c['pts'], (c['x_0'], c['y_0'])
+    elif which == 'grid':
+        c = gen_grid_case(rng)
+        md, cls = describe_grid(c), 'GriddedPSFModel'
+        op0 = [o for o in c['ops'] if o['op'] == 'eval'][0]
+        pts, base = op0['pts'], (op0['x_0'], op0['y_0'])
+        md['ops'] = []
+    else:
+        md = gen_real_case(rng)
+        cls = md['name']
+        base = (F(md['params']['x_0']), F(md['params']['y_0']))
+        pts = [(F(rng.randint(-24, 24), 8) + round(base[0]), F(rng.randint(-24, 24), 8) + round(base[1]))
+               for _ in range(rng.choice([4, 6, 9]))]
+    pts = list(pts)[:12]
+    if len(pts) < 2:
+        pts = pts + [(base[0] + 1, base[1])]
+    ops = []
+    for _ in range(rng.choice([2, 2, 3, 4])):
+        same = rng.random() < 0.5
+        ops.append(dict(target=rng.choice(TARGETS), flux=str(rng.choice(FLUXES[:5])),
+                        x_0=str(base[0] if same else base[0] + F(rng.randint(-8, 8), 8)),
+                        y_0=str(base[1] if same else base[1] + F(rng.randint(-8, 8), 8))))
+    return cls, dict(kind='reuse', model=md, coord=rng.choice(COORD_KINDS),
+                     xs=[str(p[0]) for p in pts], ys=[str(p[1]) for p in pts], ops=ops)
+
+
+# --------------------------------------------------------------------------
 # run
 # --------------------------------------------------------------------------
 def load_local_known(ctx):
@@ -796,7 +940,12 @@ def run(ctx):
         'evaluate/copy/deepcopy histories. GriddedPSFModel: 1x1, 1xN, Nx1, 2x2..4x3 grids with unequal gaps, input '
         'order sorted/shuffled/x-major, reference point on a node / cell interior / grid line / midpoint / outside an '
         'edge / outside a corner, histories of 1-4 evaluations with copy()/deepcopy(). Analytic: five Gaussian '
-        'PRF/PSF classes with stand-in primitives on the dyadic lattice. non-trivial = at least one point inside the '
+        'PRF/PSF classes with stand-in primitives on the dyadic lattice. Shared-array histories (ImagePSF, '
+        'GriddedPSFModel, all analytic classes): ONE set of caller coordinate containers (float64 1-D / 2-D C / 2-D F / '
+        'strided view / reversed view, float32, int64, list, scalar) reused for 2-4 evaluations over the model, copy() and '
+        'deepcopy() with changing parameters; after every call the containers and their base buffers are compared '
+        'bitwise with a snapshot and the output with a fresh model on fresh copies of the coordinates; every K '
+        'evaluation also snapshots its float64 inputs. non-trivial = at least one point inside the '
         'sampled range; distinct = distinct case descriptions')
     ctx.assumptions += [
         'scipy RectBivariateSpline(kx=ky=3, s=0) interpolates its knots: checked on every sample point of every case '
@@ -847,7 +996,7 @@ def run(ctx):
         except Exception as e:      # noqa  (valid input: an exception contradicts the property)
             d = describe_image(c)
             d['hseed'] = seed
-            report(f'ImagePSF:exception:{type(e).__name__}', f'ImagePSF raised on a valid input: {e!s:.200}', d)
+            report(exc_sig('ImagePSF', e), f'ImagePSF failed on a valid input: {e!s:.200}', d)
             continue
         for g, v in c['stats'].items():
             ctx.stat('image_' + g, v)
@@ -872,8 +1021,8 @@ def run(ctx):
         try:
             out, keys = run_grid(c)
         except Exception as e:      # noqa
-            report(f'GriddedPSFModel:exception:{type(e).__name__}',
-                          f'GriddedPSFModel raised on a valid input: {e!s:.200}', describe_grid(c))
+            report(exc_sig('GriddedPSFModel', e),
+                   f'GriddedPSFModel failed on a valid input: {e!s:.200}', describe_grid(c))
             continue
         for g, v in c['stats'].items():
             ctx.stat('grid_' + g, v)
@@ -992,6 +1141,21 @@ def run(ctx):
                           'classification, cache keys or value) although the property oracle holds', d,
                           found_input=False)
 
+    # ---- histories that reuse ONE set of caller coordinate arrays (all representations)
+    n_reuse = 60 if quick else 400
+    for which in ('image', 'grid', 'analytic'):
+        for k in range(n_reuse):
+            cls, spec = gen_reuse_case(rng, which)
+            ctx.stat('reuse_' + which, spec['coord'])
+            for op in spec['ops']:
+                ctx.stat('reuse_targets', op['target'])
+            try:
+                fails = run_reuse(spec)
+            except Exception as e:      # noqa
+                fails = [(f'exception:{type(e).__name__}', f'{e!s:.200}')]
+            ctx.count_case(spec, True)
+            for suffix, msg in fails:
+                report(f'{cls}:{suffix}', msg, spec)
     # ---- real analytic models (real erf): direct clauses + numerical support
     for k in range(n_real):
         rc = gen_real_case(rng)
@@ -1039,6 +1203,9 @@ def replay(obj):
             if o is not None and not np.array_equal(o[0], o[2], equal_nan=True):
                 fails.append((0, 0, 'differs from a fresh object'))
         print('impl:', [None if o is None else o[0].tolist() for o in out])
+    elif kind == 'reuse':
+        fails = run_reuse(r)
+        print('model:', r['model'].get('kind'), 'coordinates:', r['coord'], 'ops:', [o['target'] for o in r['ops']])
     elif kind == 'real':
         fails = real_checks(r, support_cb=lambda nm: None)
         print('model:', r['name'], r['params'])
